@@ -592,7 +592,7 @@ def run(ctx):
     if not proof_ok:
         ctx.violation('proof obligations of C12 do not check: %s' % (pr['failed'],), dict(log=pr['log'][-3000:]), no_input=True)
     work = C.scratch('c12.')
-    nrand = int(os.environ.get('C12_NRAND', 130 if ctx.tier == 'quick' else 1100))
+    nrand = int(os.environ.get('C12_NRAND', 130 if ctx.tier == 'quick' else 1800))
     progs = make_programs(ctx, nrand)
     results, nretry = run_all(progs, work, bbexe, deexe)
     ctx.cov['programs_rerun_after_watchdog'] = nretry
